@@ -100,6 +100,9 @@ func (p *Parser) FromString(data string) error {
 
 func (p *Parser) parseString(data string) error {
 	scanner := bufio.NewScanner(strings.NewReader(data))
+	// a line can be as long as the whole text: with the default 64KB token limit Scan() stops
+	// at a longer line, and that line and everything after it would be dropped
+	scanner.Buffer(make([]byte, 0, bufio.MaxScanTokenSize), len(data)+1)
 	var linebuffer strings.Builder
 	inBackticks := false
 	for scanner.Scan() {
@@ -139,6 +142,9 @@ func (p *Parser) parseString(data string) error {
 			}
 			linebuffer.Reset()
 		}
+	}
+	if err := scanner.Err(); err != nil {
+		return err
 	}
 	if inBackticks {
 		return errors.New("backticks left open")
